@@ -93,7 +93,7 @@ func c16Ticket(c *Ctx) {
 	dk, di := describe(d)
 	ek, ei := describe(e)
 	dbg("C16 hmac decrypt key=%s input=%s; encrypt key=%s input=%s", dk, di, ek, ei)
-	c.Check(strings.Contains(dk, "hmacKey") && strings.Contains(dk, "sessionTicketKeys"), rule, fname(d), "the MAC key is the hmacKey of the ticket key found by name", "", "HMAC key is "+dk, d.Pos())
+	c.Check(strings.Contains(dk, "hmacKey") && (strings.Contains(dk, "sessionTicketKeys") || strings.Contains(dk, ".ticketKeys(")), rule, fname(d), "the MAC key is the hmacKey of the ticket key found by name", "", "HMAC key is "+dk, d.Pos())
 	c.Check(di == "slice(encrypted,_,sub(len(encrypted),0x20))", rule, fname(d), "the MAC covers key name || IV || ciphertext", "", "HMAC input is "+di, d.Pos())
 	// layout agreement
 	lrule := "K-C16-layout"
